@@ -174,10 +174,11 @@ def cbmc_cmd(job, gb, trace=False, prop=None):
     checks = list(DEFAULT_CHECKS)
     for c in [x for x in job.checks.split(",") if x]:
         flag = {"conversion": "--conversion-check", "shift": "--undefined-shift-check",
-                "signed": "--signed-overflow-check", "unsigned": "--unsigned-overflow-check"}[c.lstrip("+-")]
+                "signed": "--signed-overflow-check", "unsigned": "--unsigned-overflow-check",
+                "ptrarith": "--pointer-overflow-check"}[c.lstrip("+-")]
         if c.startswith("-"):
             # cbmc 6 turns signed-overflow and undefined-shift checks on by default
-            checks = [x for x in checks if x != flag] + [flag.replace("--", "--no-", 1)]
+            checks = [x for x in checks if x != flag] + ([] if flag == "--pointer-overflow-check" else [flag.replace("--", "--no-", 1)])
         else:
             checks.append(flag)
     cmd = ["cbmc", gb] + checks + ["--object-bits", job.objbits, "--json-ui"]
@@ -472,7 +473,7 @@ def build_native_lib(dst):
     os.makedirs(objdir, exist_ok=True)
     def cc(s):
         o = os.path.join(objdir, s.replace("/", "_") + ".o")
-        cmd = ["clang", "-c", "-O1", "-g", "-fsanitize=address,undefined", "-fno-omit-frame-pointer",
+        cmd = ["clang", "-c", "-O1", "-g", "-fsanitize=address,undefined,pointer-compare,pointer-subtract", "-fno-omit-frame-pointer",
                "-I" + os.path.join(REPO, "include")] + defs + [os.path.join(REPO, s), "-o", o, "-w"]
         p = subprocess.run(cmd, stdout=subprocess.PIPE, stderr=subprocess.STDOUT)
         return o, p.returncode, p.stdout.decode("utf-8", "replace")
@@ -517,7 +518,7 @@ def native_replay(job, cex, dest_dir, obligation):
         else:
             _, defs = cfg()
             exe = os.path.join(dest_dir, "replay")
-            cmd = ["clang", "-O0", "-g", "-fsanitize=address,undefined", "-fno-omit-frame-pointer", "-fno-sanitize-recover=undefined",
+            cmd = ["clang", "-O0", "-g", "-fsanitize=address,undefined,pointer-compare,pointer-subtract", "-fno-omit-frame-pointer", "-fno-sanitize-recover=undefined",
                    "-DVERIF_NATIVE", "-I" + dest_dir, "-I" + os.path.join(VERIF, "include"), "-I" + os.path.join(VERIF, "contracts"),
                    "-I" + os.path.join(REPO, "include"), "-I" + REPO] + defs + job.defs + [main_c, lib, "-ldl", "-o", exe, "-w"]
             p = subprocess.run(cmd, stdout=subprocess.PIPE, stderr=subprocess.STDOUT)
@@ -526,7 +527,7 @@ def native_replay(job, cex, dest_dir, obligation):
             else:
                 try:
                     p = subprocess.run([exe], stdout=subprocess.PIPE, stderr=subprocess.STDOUT, timeout=120,
-                                       env=dict(os.environ, ASAN_OPTIONS="detect_leaks=0:abort_on_error=0", UBSAN_OPTIONS="print_stacktrace=1"))
+                                       env=dict(os.environ, ASAN_OPTIONS="detect_leaks=0:abort_on_error=0:detect_invalid_pointer_pairs=2", UBSAN_OPTIONS="print_stacktrace=1"))
                     text = p.stdout.decode("utf-8", "replace")[-6000:]
                     if "ERROR: AddressSanitizer" in text or "runtime error:" in text or "REPLAY-VIOLATION" in text:
                         reproduced = True
